@@ -303,7 +303,7 @@ namespace
         {
             Plan p;
             int nc = (int)r.range(2, 4);
-            int64_t elems = r.range(1, tier == THOROUGH ? 24 : 10);
+            int64_t elems = r.range(0, tier == THOROUGH ? 24 : 10); // capacity 0: an empty pool answers null at once
             int64_t elsz = r.pick<int64_t>({8, 8, 12, 16, 20, 24, 40, 64, 100});
             p.cfg = {nc, elems, elsz, (int64_t)r.below(4)};
             int n = (int)r.range(4, tier == THOROUGH ? 120 : 50);
@@ -325,11 +325,13 @@ namespace
         {
             Result res;
             int nc = (int)mod(p.c(0) - 2, 3) + 2;
-            size_t elems = (size_t)mod(p.c(1) - 1, 64) + 1;
+            size_t elems = (size_t)mod(p.c(1), 65);
             size_t elsz = (size_t)mod(p.c(2) - 8, 200) + 8;
+            if (elems == 0) probe("pool_capacity_zero");
             if (kind == 2) { elems = 6; elsz = sizeof(igris::static_object_pool<Obj, 6>::storage_type); }
             size_t zsize = elems * elsz;
             // exact-size zone: ASan red zones right behind the last cell
+            // the zone sits between two other exact-size heap blocks: writes below it are caught like writes above it
             std::unique_ptr<char[]> zone(new char[zsize]);
             memset(zone.get(), (int)(mod(p.c(3), 4) == 0 ? 0x00 : mod(p.c(3), 4) == 1 ? 0xFF : 0xA5), zsize);
             pool_head ph;
